@@ -14,7 +14,7 @@ pub struct Job {
     pub shape: &'static str,
 }
 
-pub const SHAPES: [&str; 6] = ["sole", "clone", "shared_ab", "shared_ba", "other_thread", "concurrent"];
+pub const SHAPES: [&str; 9] = ["sole", "clone", "shared_ab", "shared_ba", "other_thread", "concurrent", "diverge8", "clones64", "tail_handle"];
 
 pub fn jobs(thorough: bool) -> Vec<Job> {
     let mut v = vec![];
@@ -29,7 +29,7 @@ pub fn jobs(thorough: bool) -> Vec<Job> {
                         continue;
                     }
                     // the longest played games are run once per profile and stack with every shape only in thorough
-                    if !thorough && n >= 30_000 && !(*shape == "sole" || *shape == "shared_ab") {
+                    if !thorough && n >= 30_000 && !(*shape == "sole" || *shape == "shared_ab" || *shape == "diverge8") {
                         continue;
                     }
                     v.push(Job { profile, mode: "play", n, stack, shape });
